@@ -14,7 +14,7 @@ import (
 func init() {
 	register(&PropDef{
 		ID:       "C03",
-		Patterns: []string{"./node", "./data"},
+		Patterns: []string{"./node", "./data", "./std"},
 		Explanation: "Decides two structural clauses of the operator semantics: (a) 'no operand combination crashes the interpreter' — in every operator node (the types built by node.NewBinaryExpression and the unary/ternary/coalesce/increment constructors, with the package functions they call) each single-result type assertion on an operand is dominated by a test that fixes the operand's dynamic type to one that satisfies it, each integer or float division has its divisor value tested against zero on every path, and each shift has a signed count rejected when negative; " +
 			"(b) 'a value is truthy in every boolean context alike' — every boolean context obtains its decision from data.AsBool and none inspects a scalar payload itself. Numeric results, comparison laws and what AsBool answers are value-level and are not decided.",
 		Assumptions: []string{
@@ -816,6 +816,89 @@ func c03Truth(r *Run, npkg, dpkg *packages.Package) {
 		if !found {
 			r.fail("no method of node.%s evaluates its %s field: boolean context anchor moved", c.typ, c.field)
 		}
+	}
+	c03BoolCast(r, asBoolIface, asBoolMethod)
+}
+
+// c03BoolCast: the (bool) conversion function is a boolean context like the others: it asks the
+// truthiness interface first and has no arm for a concrete value type in front of it.
+func c03BoolCast(r *Run, asBoolIface *types.Interface, asBoolMethod string) {
+	sp := r.pkg("std")
+	if sp == nil {
+		return
+	}
+	info := sp.TypesInfo
+	// the function object whose GetName answers "bool"
+	var recv string
+	for _, fd := range funcDecls(sp) {
+		if fd.Name.Name != "GetName" || fd.Recv == nil || fd.Body == nil || len(fd.Body.List) != 1 {
+			continue
+		}
+		rs, ok := fd.Body.List[0].(*ast.ReturnStmt)
+		if !ok || len(rs.Results) != 1 {
+			continue
+		}
+		if tv, ok := info.Types[rs.Results[0]]; ok && tv.Value != nil && tv.Value.ExactString() == `"bool"` {
+			recv = recvTypeName(fd)
+		}
+	}
+	if recv == "" {
+		r.fail("the (bool) conversion function (a std function object named \"bool\") was not found")
+		return
+	}
+	call := findFunc(sp, recv, "Call")
+	if call == nil {
+		r.fail("std.%s has no Call method", recv)
+		return
+	}
+	key := funcKey(sp, call) + "#truth:(bool)"
+	isTruthIface := func(t types.Type) bool {
+		it, ok := t.Underlying().(*types.Interface)
+		return ok && types.Identical(it, asBoolIface)
+	}
+	isConcreteValue := func(t types.Type) bool {
+		pt, ok := t.(*types.Pointer)
+		if !ok {
+			return false
+		}
+		nt := namedOf(pt.Elem())
+		return nt != nil && nt.Obj().Pkg() != nil && nt.Obj().Pkg().Path() == modPath+"/data" && strings.HasSuffix(nt.Obj().Name(), "Value")
+	}
+	consults := false
+	var early token.Pos
+	earlyWhat := ""
+	ast.Inspect(call.Body, func(n ast.Node) bool {
+		switch x := n.(type) {
+		case *ast.CallExpr:
+			if se, ok := ast.Unparen(x.Fun).(*ast.SelectorExpr); ok && se.Sel.Name == asBoolMethod {
+				consults = true
+			}
+		case *ast.TypeSwitchStmt:
+			seenTruth := false
+			for _, c := range x.Body.List {
+				cc := c.(*ast.CaseClause)
+				for _, t := range cc.List {
+					tv, ok := info.Types[t]
+					if !ok || !tv.IsType() {
+						continue
+					}
+					if isTruthIface(tv.Type) {
+						seenTruth = true
+					} else if !seenTruth && isConcreteValue(tv.Type) && !early.IsValid() {
+						early, earlyWhat = cc.Pos(), types.TypeString(tv.Type, func(p *types.Package) string { return p.Name() })
+					}
+				}
+			}
+		}
+		return true
+	})
+	switch {
+	case early.IsValid():
+		r.bad(key, early, "the (bool) conversion has an arm for "+earlyWhat+" in front of the truthiness interface: that kind of value is judged by a rule of its own here and by data."+asBoolMethod+" in if / while / ?: / ! / && / ||, so the same value can be true in one context and false in another")
+	case !consults:
+		r.bad(key, call.Pos(), "the (bool) conversion never consults the truthiness interface")
+	default:
+		r.ok(key, call.Pos(), "(bool) decides through the truthiness interface first")
 	}
 }
 
